@@ -7,6 +7,9 @@ CONSTANTS
   MaxT = 2
   Phases <- query_q_Phases
   ShapeSet <- query_q_Shapes
+  Signers = {"s1", "s2"}
+  Recipients = {"r1", "r2"}
+  Policies <- query_q_Policies
   CfgName = "query_q"
 INIT Init
 NEXT Next
